@@ -135,12 +135,21 @@ def _status(rep, body, short, where, res_local):
             return d[3]["place"]
         return None
     ok_edges = []  # (bb, succ) edges meaning "this Result is Ok" / and err edges
+    # the result may be handed on unchanged (moved into the parameter of an inlined helper)
+    alias = {res_local}
+    for _ in range(4):
+        for bb in body.normal_blocks():
+            for s in body.stmts(bb):
+                if s["k"] == "assign" and s["r"]["k"] == "use" and not s["p"]["p"]:
+                    p = op_place(s["r"]["op"])
+                    if p and p["l"] in alias and not p["p"] and len(body.defs(s["p"]["l"])) == 1:
+                        alias.add(s["p"]["l"])
     inner_locals = set()
     for bb in body.normal_blocks():
         for s in body.stmts(bb):
             if s["k"] == "assign" and s["r"]["k"] == "use":
                 p = op_place(s["r"]["op"])
-                if p and p["l"] == res_local and any(isinstance(e, dict) and e.get("dc") == 0 for e in p["p"]):
+                if p and p["l"] in alias and any(isinstance(e, dict) and e.get("dc") == 0 for e in p["p"]):
                     inner_locals.add(s["p"]["l"])
     outer_ok, inner_ok = [], []
     for bb in body.normal_blocks():
@@ -154,10 +163,11 @@ def _status(rep, body, short, where, res_local):
         if dp is None:
             continue
         tg = dict((v, b) for v, b in t["targets"])
-        if dp["l"] == res_local and not dp["p"]:
+        if dp["l"] in alias and not dp["p"]:
             if 0 in tg:
                 outer_ok.append((bb, tg[0]))
-        elif dp["l"] in inner_locals and not dp["p"]:
+        elif (dp["l"] in inner_locals and not dp["p"]) or (dp["l"] in alias and [e.get("dc") if isinstance(e, dict) else e for e in dp["p"]][:1] == [0]
+                                                            and all(isinstance(e, dict) and ("dc" in e or e.get("f") == 0) for e in dp["p"]) and len(dp["p"]) <= 2):
             # inner Result<(), E>: Ok = 0
             if 0 in tg:
                 inner_ok.append((bb, tg[0]))
@@ -165,17 +175,30 @@ def _status(rep, body, short, where, res_local):
                 inner_ok.append((bb, t["otherwise"]))
     consts = []
     bad = []
-    for bb in body.normal_blocks():
-        for s in body.stmts(bb):
-            if s["k"] == "assign" and s["p"]["l"] == 0 and not s["p"]["p"]:
-                v = flow.const_eval(body, s["r"]["op"]) if s["r"]["k"] == "use" else None
-                if v is None:
-                    bad.append(bb)
-                else:
+
+    def status_defs(local, depth=0):
+        for d in body.defs(local):
+            bb = d[0]
+            if bb not in body.normal_blocks():
+                continue
+            if d[2] == "assign" and not d[3] is None and d[3]["k"] == "use":
+                v = flow.const_eval(body, d[3]["op"]) if op_place(d[3]["op"]) is None else None
+                q = op_place(d[3]["op"])
+                if v is not None:
                     consts.append((bb, v))
-        t = body.term(bb)
-        if t["k"] == "call" and t["dest"]["l"] == 0:
-            bad.append(bb)
+                elif q is not None and not q["p"] and depth < 4 and len(body.defs(q["l"])) >= 1 and not (1 <= q["l"] <= body.argc):
+                    status_defs(q["l"], depth + 1)       # a copy: the constants are where the copied local is set
+                else:
+                    v2 = flow.const_eval(body, d[3]["op"])
+                    if v2 is not None:
+                        consts.append((bb, v2))
+                    else:
+                        bad.append(bb)
+            elif d[2] == "arg":
+                bad.append(bb)
+            else:
+                bad.append(bb)
+    status_defs(0)
     rep.add("F1", "status-constants-only:" + short, not bad and consts, where,
             "non-constant status at blocks %r" % bad if bad else "status values %r" % sorted({v for _, v in consts}))
     for bb, v in consts:
